@@ -203,6 +203,26 @@ def standin_lme(tier, seed):
                 violations.append(dict(key=f"LME (random slope: {slope}): estimates of several individuals are not each individual's own line, or change when asked again",
                                        individual=sid_, first=a1.tolist(), again=a2.tolist(), documented=want.tolist()))
                 break
+        # an unseen subject none of whose values is observed, kept in the cohort (drop_full_nan=False): given no data the conditional means of
+        # its random effects are their prior means, 0 -- and its neighbour's estimate is what it is without it
+        new = pd.DataFrame([("a", 61.0, 0.31), ("a", 63.0, 0.33), ("b", 70.0, np.nan), ("b", 72.0, np.nan)], columns=["ID", "TIME", "Y"])
+        evals += 1
+        distinct.add((slope, "no observation"))
+        with quiet():
+            alone = m.personalize(Data.from_dataframe(new[new["ID"] == "a"]), "lme_personalize")
+        try:
+            with quiet():
+                both = m.personalize(Data.from_dataframe(new, drop_full_nan=False), "lme_personalize")
+        except Exception as e:
+            violations.append(dict(key=f"LME (random slope: {slope}): a subject without any observed value (kept with drop_full_nan=False) aborts the personalisation "
+                                       f"with {type(e).__name__} instead of receiving the conditional means given no data (zero random effects)", error=str(e)[:120]))
+            both = None
+        if both is not None:
+            names_re = ["random_intercept"] + (["random_slope_age"] if slope else [])
+            if any(abs(float(np.ravel(both["b"][n_])[0])) > 1e-12 for n_ in names_re):
+                violations.append(dict(key=f"LME (random slope: {slope}): a subject without any observed value does not get zero random effects", got=str(both["b"])))
+            if any(abs(float(np.ravel(both["a"][n_])[0]) - float(np.ravel(alone["a"][n_])[0])) > 1e-9 for n_ in names_re):
+                violations.append(dict(key=f"LME (random slope: {slope}): an individual's random effects change when a subject without observations is added to the cohort"))
         samples.append(dict(random_slope=slope, individuals=len(ref.random_effects)))
     return dict(evaluations=evals, distinct_nontrivial=len(distinct),
                 rule="one evaluation = the personalised random effects of one training individual compared with statsmodels; "
